@@ -45,6 +45,9 @@ pub enum Ev {
 	FsRej(u8, u8),
 	/// a real OS signal raised at this process: SIGNALS[i], delivered by the signal source
 	Sig(u8),
+	/// not an event: `config.filterer(..)` replaces the filterer at run time with one that
+	/// inverts the pass / reject verdicts
+	SwapFilter,
 }
 
 pub const ALL_EV: [Ev; 9] = [Ev::NPass, Ev::NRej, Ev::NErr, Ev::NEmpty, Ev::LPass, Ev::HPass, Ev::HRej, Ev::URej, Ev::UEmpty];
@@ -138,6 +141,7 @@ pub enum L {
 	Drain,
 	Note(String),
 	FsTags { id: usize, tags: String },
+	Swap { id: usize },
 	FsOverflow { id: usize },
 }
 
@@ -174,6 +178,7 @@ fn render(l: &L) -> String {
 		L::Drain => "-- drain --".into(),
 		L::Note(s) => s.clone(),
 		L::FsTags { id, tags } => format!("fs event #{id} tags {tags}"),
+		L::Swap { id } => format!("#{id} filterer replaced (verdicts inverted)"),
 		L::FsOverflow { id } => format!("fs event #{id} overflowed the event queue"),
 	}
 }
@@ -253,18 +258,21 @@ fn event_id(e: &Event) -> usize {
 }
 
 #[derive(Debug)]
-struct ScriptedFilter;
+struct ScriptedFilter {
+	/// generation 0 = verdicts as scripted; odd generations invert pass / reject
+	invert: bool,
+}
 impl Filterer for ScriptedFilter {
 	fn check_event(&self, e: &Event, _p: Priority) -> Result<bool, RuntimeError> {
 		let id = event_id(e);
 		w(|x| x.log.push(L::FilterCall { id }));
 		if e.metadata.get("file-event-info").and_then(|v| v.first()).map_or(false, |s| s.starts_with("rej")) {
-			return Ok(false);
+			return Ok(self.invert);
 		}
 		match e.metadata.get("v").and_then(|v| v.first()).map(String::as_str) {
-			Some("rej") => Ok(false),
+			Some("rej") => Ok(self.invert),
 			Some("err") => Err(RuntimeError::External(format!("filter-error-{id}").into())),
-			_ => Ok(true),
+			_ => Ok(!self.invert),
 		}
 	}
 }
@@ -391,7 +399,7 @@ fn install_errh(config: &Config, beh: ErrBeh, gen: usize) {
 async fn body(sc: &EvSc, bounds: Bounds, prop: &str) -> Obs {
 	let config = Config::default();
 	config.throttle(rt::TICK * sc.throttle as u32);
-	config.filterer(ScriptedFilter);
+	config.filterer(ScriptedFilter { invert: false });
 	let mut config = config;
 	config.event_channel_size = sc.chan;
 	config.error_channel_size = sc.err_chan;
@@ -533,7 +541,11 @@ async fn body(sc: &EvSc, bounds: Bounds, prop: &str) -> Obs {
 				let (id, ev) = per[&p][cursor[&p]];
 				*cursor.get_mut(&p).unwrap() += 1;
 				w(|x| x.log.push(L::Send { id, ev, t: now }));
-				if let Ev::Sig(i) = ev {
+				if ev == Ev::SwapFilter {
+					let odd = w(|x| x.log.iter().filter(|l| matches!(l, L::Swap { .. })).count() % 2 == 0);
+					w(|x| x.log.push(L::Swap { id }));
+					wx.config.filterer(ScriptedFilter { invert: odd });
+				} else if let Ev::Sig(i) = ev {
 					// a real signal to this very process; the signal source picks it up when
 					// the I/O driver turns
 					unsafe {
@@ -655,6 +667,35 @@ fn push(key: String, detail: String) {
 	});
 }
 
+/// Which filter was the configured one when event `id` was filtered: the number of
+/// replacements before the filter call for that event (None: it was never filtered).
+fn inverted_at(log: &[L], id: usize) -> Option<bool> {
+	let mut inv = false;
+	for l in log {
+		match l {
+			L::Swap { .. } => inv = !inv,
+			L::FilterCall { id: i } if *i == id => return Some(inv),
+			_ => {}
+		}
+	}
+	None
+}
+
+fn deliverable_at(sc: &EvSc, log: &[L], id: usize) -> bool {
+	let c = class_of(sc, id);
+	if c == Ev::SwapFilter {
+		return false;
+	}
+	if c.bypasses_filter() || c.verdict() == "err" {
+		return c.deliverable();
+	}
+	match inverted_at(log, id) {
+		Some(inv) => c.deliverable() != inv,
+		// never filtered (still queued when the run ended): nothing is demanded
+		None => false,
+	}
+}
+
 fn class_of(sc: &EvSc, id: usize) -> Ev {
 	sc.script[id].0
 }
@@ -684,8 +725,8 @@ fn c01_end(sc: &EvSc, main_done: bool) {
 			continue;
 		}
 		let c = class_of(sc, *id);
-		if !c.deliverable() {
-			push(format!("C01/rejected-event-delivered/{c:?}"), format!("event #{id} ({c:?}) was handed to the handler"));
+		if !deliverable_at(sc, &log, *id) {
+			push(format!("C01/rejected-event-delivered/{c:?}"), format!("event #{id} ({c:?}) was handed to the handler although the filter in force rejects it"));
 		}
 		if *n > 1 {
 			push(format!("C01/delivered-twice/{c:?}"), format!("event #{id} ({c:?}) was delivered {n} times"));
@@ -694,7 +735,7 @@ fn c01_end(sc: &EvSc, main_done: bool) {
 	if !main_done {
 		for id in &accepted {
 			let c = class_of(sc, *id);
-			if c.deliverable() && !delivered.contains_key(id) {
+			if deliverable_at(sc, &log, *id) && !delivered.contains_key(id) {
 				push(format!("C01/accepted-event-lost/{c:?}"), format!("event #{id} ({c:?}) was accepted into the queue but never delivered"));
 			}
 		}
@@ -1073,6 +1114,21 @@ pub fn scenarios(prop: &str, tier: Tier) -> Vec<(EvSc, Vec<Bounds>)> {
 		_ => {}
 	}
 	if prop == "C01" {
+		// a filterer replaced at run time is the configured filter from then on (default
+		// schedule only: the event is filtered at the quiescent instant of its send)
+		let alpha = [Ev::NPass, Ev::NRej, Ev::HRej, Ev::SwapFilter];
+		for s in upto(&alpha, if tier == Tier::Thorough { 4 } else { 3 }) {
+			if !s.contains(&Ev::SwapFilter) || s.iter().all(|e| *e == Ev::SwapFilter) {
+				continue;
+			}
+			for thr in [0u64, 2] {
+				for gated in [false, true] {
+					let mut sc = EvSc::base(s.iter().map(|e| (*e, 0)).collect(), thr);
+					sc.gated = gated;
+					out.push((sc, ladder(0)));
+				}
+			}
+		}
 		// the signal source: each handled signal alone, and around a synthetic event
 		for i in 0..SIGNALS.len() as u8 {
 			for s in [vec![Ev::Sig(i)], vec![Ev::NPass, Ev::Sig(i)], vec![Ev::Sig(i), Ev::NPass], vec![Ev::Sig(i), Ev::Sig((i + 1) % 6)]] {
